@@ -851,7 +851,7 @@ func nextC01L2(g *sim.G, i int) *sim.Op {
 
 var C01L2 = register(&HistProp{ID: "C01",
 	Genesis: func(t *rapid.T) *sim.GenSpec {
-		g := sim.DrawGenesis(t, sim.GenOpts{NoPause: true, MaxAtt: 6})
+		g := sim.DrawGenesis(t, sim.GenOpts{NoPause: true, MaxAtt: 6, NoAttesters: true})
 		g.MaxBody = 8000
 		return g
 	},
